@@ -109,6 +109,8 @@ enum TState {
 }
 
 struct ThreadSt {
+    /// Yielded because a lock it wants is taken: not picked again until something else has run.
+    contended: bool,
     state: TState,
     /// Woken while running: a following `Blocked` yield turns into `Ready`.
     woken: bool,
@@ -182,7 +184,10 @@ impl verif::Scheduler for GateSched {
         false
     }
     fn after_poll(&self, _id: u64, _done: bool) {
-        self.lock().current = None;
+        let mut i = self.lock();
+        i.threads.values_mut().for_each(|t| t.contended = false);
+        i.current = None;
+        drop(i);
         CUR_TAG.with(|c| c.set(0));
     }
     fn task_dropped(&self, id: u64) {
@@ -206,7 +211,7 @@ impl verif::Scheduler for GateSched {
             (None, None) => i.spawn_tag,
         };
         let id = i.next_id;
-        i.threads.insert(id, ThreadSt { state: TState::Ready, woken: false, tag });
+        i.threads.insert(id, ThreadSt { state: TState::Ready, woken: false, tag, contended: false });
         id
     }
 
@@ -222,6 +227,7 @@ impl verif::Scheduler for GateSched {
         debug_assert_eq!(i.running, Some(id));
         match how {
             verif::Yield::Done => {
+                i.threads.values_mut().for_each(|t| t.contended = false);
                 i.threads.remove(&id);
                 i.live -= 1;
                 // The callback runs while this thread still holds the baton (the runtime thread
@@ -238,10 +244,17 @@ impl verif::Scheduler for GateSched {
                 return;
             }
             verif::Yield::Preempted => {
+                i.threads.values_mut().for_each(|t| t.contended = false);
                 let t = i.threads.get_mut(&id).unwrap();
                 t.state = TState::Ready;
             }
+            verif::Yield::Contended => {
+                let t = i.threads.get_mut(&id).unwrap();
+                t.state = TState::Ready;
+                t.contended = true;
+            }
             verif::Yield::Blocked => {
+                i.threads.values_mut().for_each(|t| t.contended = false);
                 let t = i.threads.get_mut(&id).unwrap();
                 t.state = if t.woken { TState::Ready } else { TState::Blocked };
             }
@@ -252,6 +265,26 @@ impl verif::Scheduler for GateSched {
         while i.running != Some(id) {
             i = self.cv.wait(i).unwrap();
         }
+    }
+
+    fn blocking_help(&self) -> bool {
+        // On the runtime thread, inside a task poll which needs a lock held by a preempted
+        // simulated thread: run the runnable thread with the lowest id for one slice.
+        let mut i = self.lock();
+        let Some(id) = i.threads.iter().find(|(_, t)| t.state == TState::Ready && !t.contended).map(|(id, _)| *id) else {
+            return false;
+        };
+        i.steps += 1;
+        i.sched_fp = mix(i.sched_fp, id ^ 0x4e1f);
+        if let Some(t) = i.threads.get_mut(&id) {
+            t.state = TState::Running;
+        }
+        i.running = Some(id);
+        self.cv.notify_all();
+        while i.running.is_some() {
+            i = self.cv.wait(i).unwrap();
+        }
+        true
     }
 
     fn blocking_waker(&self, id: u64) -> Waker {
@@ -403,7 +436,11 @@ impl Sched {
         }
         let pick = {
             let i = self.gate.lock();
-            let threads: Vec<u64> = i.threads.iter().filter(|(_, t)| t.state == TState::Ready).map(|(id, _)| *id).collect();
+            let mut threads: Vec<u64> = i.threads.iter().filter(|(_, t)| t.state == TState::Ready && !t.contended).map(|(id, _)| *id).collect();
+            if threads.is_empty() && i.ready.is_empty() {
+                // Only lock spinners are left: let them look again.
+                threads = i.threads.iter().filter(|(_, t)| t.state == TState::Ready).map(|(id, _)| *id).collect();
+            }
             let nt = i.ready.len();
             let n = nt + threads.len();
             if n == 0 {
